@@ -86,6 +86,7 @@ func (t *Tree) parseUntilTag(start Pos, names ...string) (*BodyNode, error) {
 			return n, newUnexpectedEOFError(tok)
 
 		case tokenTagOpen:
+			mark := len(t.read)
 			t.next()
 			tok, err := t.expect(tokenName)
 			if err != nil {
@@ -94,7 +95,7 @@ func (t *Tree) parseUntilTag(start Pos, names ...string) (*BodyNode, error) {
 			if contains(names, tok.value) {
 				return n, nil
 			}
-			t.backup3()
+			t.backupTo(mark)
 			o, err := t.parse()
 			if err != nil {
 				return n, err
